@@ -22,3 +22,26 @@ func VerifReduceFuncTs(w *parser.Walker) string {
 	b.buildReduceFunc()
 	return b.ReduceFunc
 }
+
+// VerifPartsGo returns the parts of the generated Go file that are printed from the tables and
+// the symbol table (as buildConstPart, buildAnalyTable and buildTranslate leave them in the builder;
+// utils.PackFlags selects the packed or the plain table).
+func VerifPartsGo(w *parser.Walker) map[string]string {
+	b := NewTemplateBuilder(w)
+	b.buildConstPart()
+	b.buildAnalyTable()
+	b.buildTranslate()
+	return map[string]string{
+		"Const": b.ConstPart, "Dense": b.AnalyTable, "Packed": b.PackAnalyTable,
+		"Translate": b.Translate, "TranslateTrace": b.TranslateTrace, "ReduceTrace": b.ReduceTrace,
+	}
+}
+
+// VerifPartsTs is the same for the TypeScript generator.
+func VerifPartsTs(w *parser.Walker) map[string]string {
+	b := NewTsBuilder(w)
+	b.buildConstPart()
+	b.buildAnalyTable()
+	b.buildTranslate()
+	return map[string]string{"Const": b.ConstPart, "Dense": b.AnalyTable, "Translate": b.Translate}
+}
